@@ -251,10 +251,17 @@ pub(crate) fn add_int_digits<W, R, T>(
             let n = to_primitive!(a0, Int);
             let a1 = xraise_opt!(args.get(1).map(|e| eval(e, ns, &rt)).transpose()?);
             let b = to_primitive!(a1, Int, LazyBigint::from(10));
+            if b.as_ref() < &LazyBigint::from(2) {
+                // bases 1, 0 and negative ones never reduce the number (or divide by zero)
+                return xerr(ManagedXError::new("base must be at least 2", rt)?);
+            }
             let mut digits = Vec::new();
             let mut total_bits = 0;
             let mut n = n.clone();
+            // one division per digit: the loop is bounded by the search limit like every other native scan
+            let mut search = rt.limits.search_iter();
             while !n.is_zero() {
+                search.next().unwrap()?;
                 let next_digit = &n % b.as_ref();
                 total_bits += next_digit.bits();
                 rt.can_allocate_by(|| (total_bits / 8).to_usize())?;
